@@ -10,6 +10,7 @@ Side conditions (`Move.ok`): scheduled times differ from the `-1e10` empty-queue
 `Condition.wait`); physical time does not run backwards.
 -/
 import Sc3Verif.C08.Lemmas
+import Sc3Verif.C08.AppLemmas
 namespace Sc3Verif.C08
 
 inductive Reach : Clock → Rat → Prop
@@ -351,5 +352,114 @@ def exampleMoves : List Move :=
 
 example : ((Clock.init Tempo.id).runMoves exampleMoves).map (fun c => (c.pc, c.q.map (·.task))) =
     some (.parkedUntil 5, [0]) := by decide +kernel
+
+/-! ## AppClock (the repaired `_run` / `sched` pair, see known finding D-C08-1) -/
+
+inductive AReach : App → Rat → Prop
+  | init (t0 : Rat) : AReach App.init t0
+  | step {a a' : App} {t : Rat} (m : AMove) : AReach a t →
+      (∀ n, m.now? = some n → t ≤ n) → a.step m = some a' → AReach a' (m.time t)
+
+theorem areach_inv {a : App} {t : Rat} (h : AReach a t) : AInv a t := by
+  induction h with
+  | init t0 => exact ainv_init t0
+  | step m _ htn hs ih => exact ainv_step ih m htn hs
+
+/-- AppClock safety: every awake takes a pending entry whose time had come at the tick, and the
+tick was not after the awake (`AppTraceOK`). -/
+theorem app_trace_ok {a : App} {t : Rat} (h : AReach a t) : AppTraceOK a.hist := (areach_inv h).core.trace
+
+theorem appTraceOK_suffix {h1 h2 : List Ev} (h : AppTraceOK (h1 ++ h2)) : AppTraceOK h2 := by
+  induction h1 with
+  | nil => exact h
+  | cons e h1 ih =>
+    cases e with
+    | ins x => exact ih h.2
+    | awake x e n T a s => exact ih h.2.2.2
+    | gone n => exact ih h
+    | err x => exact ih h
+    | notify w => exact ih h
+    | wait w => exact ih h
+    | exit => exact ih h
+
+/-- every scheduling call on AppClock is in exactly one place: queue, taken out at the running
+tick, awakened (once), or cancelled -/
+theorem app_wake_exactly_once {a : App} {t : Rat} (h : AReach a t) :
+    a.allStamps.Nodup ∧ ∀ n, n ∈ a.allStamps ↔ n < insCount a.hist := by
+  have hi := (areach_inv h).core
+  refine ⟨hi.partNodup, fun n => ?_⟩
+  rw [← hi.nextEq]; exact hi.partMem n
+
+theorem app_never_early {a : App} {t : Rat} (h : AReach a t) {h1 h2 : List Ev} {x : Entry}
+    {e n at_ s : Rat} {T : Tempo} (hh : a.hist = h1 ++ Ev.awake x e n T at_ s :: h2) :
+    x ∈ pend h2 ∧ x.key ≤ at_ := by
+  have := appTraceOK_suffix (h1 := h1) (hh ▸ app_trace_ok h)
+  exact ⟨this.1, le_trans this.2.1 this.2.2.1⟩
+
+/-- No lost wake-up on AppClock: with no `sched` call in flight and neither flag set, the time-out
+of the thread (about to wait, or waiting) is at most the distance from the last tick to the
+current head of the queue. -/
+theorem app_no_lost_wakeup {a : App} {t : Rat} (h : AReach a t) (h1 : a.run = true)
+    (h2 : a.inflight = 0) (h3 : a.pending = false) (h4 : a.notified = false) (tt : Option Rat)
+    (hpc : a.pc = .window tt ∨ ∃ d, a.pc = .parked tt d) (x : Entry) (xs : SQ) (hq : a.q = x :: xs) :
+    ∃ r, tt = some r ∧ r ≤ x.key - a.tickAt :=
+  (areach_inv h).dl h1 h2 h3 h4 tt hpc x xs hq
+
+/-- The repaired window (D-C08-1): a `sched` call completed while the thread is between its tick and
+its wait sets the pending flag, and the thread's next step is a new tick instead of a wait. -/
+theorem app_sched_in_window_not_lost {a a1 a2 : App} {tt : Option Rat} {δ now : Rat} {tk : Task}
+    (hpc : a.pc = .window tt) (hrun : a.run = true)
+    (h1 : a.step (.schedAdd δ tk now) = some a1) (h2 : a1.step .schedNotify = some a2) :
+    a2.pending = true ∧ ∃ a3, a2.step (.thr now) = some a3 ∧ a3.pc = .top ∧
+      ∃ y ∈ a3.q, y.task = tk ∧ y.key = now + δ := by
+  simp only [App.step, Option.some.injEq] at h1
+  subst h1
+  have hpos : 0 < a.inflight + 1 := Nat.succ_pos _
+  simp only [App.step, Nat.add_sub_cancel, hpos, if_true, Option.some.injEq] at h2
+  subst h2
+  refine ⟨rfl, ?_⟩
+  simp only [App.step, App.thr, App.insertNew, hpc, hrun, Bool.not_true, Bool.false_eq_true, if_false,
+    if_true, Option.some.injEq, exists_eq_left']
+  exact ⟨trivial, ⟨now + δ, tk, a.next⟩, SQ.mem_add.mpr (Or.inl rfl), rfl, rfl⟩
+
+/-- AppClock re-schedules relative to the physical present (documented drift). -/
+theorem app_resched_relative_to_now {a a' : App} {l : List Entry} {v δ now : Rat} {x : Entry}
+    (hpc : a.pc = .inAwake l v x) (hs : a.step (.finish (.resched δ) now) = some a') :
+    a'.pc = .expired l v ∧ ({ key := now + δ, task := x.task, stamp := a.next } : Entry) ∈ a'.q := by
+  simp only [App.step, App.finish, hpc, Option.some.injEq] at hs
+  subst hs
+  exact ⟨rfl, SQ.mem_add.mpr (Or.inl rfl)⟩
+
+theorem app_clear_cancels_queue {a a' : App} (hs : a.step .clear = some a') :
+    a'.q = [] ∧ ∀ x ∈ a.q, x.stamp ∈ goneStamps a'.hist := by
+  simp only [App.step, Option.some.injEq] at hs
+  subst hs
+  refine ⟨rfl, fun x hx => ?_⟩
+  show x.stamp ∈ goneStamps (a.q.stamps.map Ev.gone ++ a.hist)
+  rw [goneStamps_gone_append]
+  exact List.mem_append_left _ (List.mem_map.mpr ⟨x, hx, rfl⟩)
+
+theorem app_exception_isolated {a a1 a2 : App} {now : Rat}
+    (h1 : a.step (.finish .raise now) = some a1) (h2 : a.step (.finish .done now) = some a2) :
+    ∃ x, a1 = { a2 with hist := Ev.err x :: a2.hist } := by
+  simp only [App.step, App.finish] at h1 h2
+  split at h1
+  · rename_i l v x hpc
+    simp only [hpc] at h2
+    simp only [Option.some.injEq] at h1 h2
+    subst h1 h2
+    exact ⟨x, rfl⟩
+  · cases h1
+
+/-! Non-vacuity: the D-C08-1 scenario on the repaired model — the thread is in its window with an
+empty queue, a task is scheduled from another thread, and it is awakened in time. -/
+def appExample : List AMove :=
+  [.thr 0,                                   -- tick on the empty queue: window, would wait for ever
+   .schedAdd (1/8) 7 0, .schedNotify,        -- sched from another thread: nobody is waiting yet
+   .thr 0, .thr 0, .thr 0,                   -- pending flag: tick again, then wait 1/8
+   .wake .timeout (1/8), .thr (1/8)]         -- time-out: task 7 is awakened
+
+example : (App.init.runMoves appExample).map (fun a => (a.pc, a.q.length)) =
+    some (.inAwake [] (1/8) { key := 1/8, task := 7, stamp := 0 }, 0) := by decide +kernel
 
 end Sc3Verif.C08
